@@ -170,8 +170,27 @@ def gen_cases(ctx):
                     w["modules"][t["module"]]["suites"].append({"t": "leaf", "id": t["id"], "lyr": li})
             o["processes"] = 1
             o["stopOnError"] = False
+        if i % 10 == 2:
+            # an unneeded layer below a needed one in the set-up order: X(A, B) runs first, then Y, which needs only
+            # the base of X that was set up later (or earlier) - A must be gone when Y's tests run
+            w = worlds.gen_world(rng, n_layers=4, tests_per_layer=(1, 2), kinds=["pass", "pass", "fail"], p_fault=0.0, p_write=0.0)
+            nonunit = [k for k, l in enumerate(w["layers"]) if l["kind"] != "unit"]
+            if len(nonunit) == 4:
+                a, b, x, y = nonunit
+                nm = rng.sample(["La", "Lb", "Lc", "Ld"], 4)
+                for k, n_ in zip(nonunit, nm):
+                    w["layers"][k].update(kind="instance", name=n_, module="wlayers", setUp=True, tearDown=True,
+                                          setUpRaises=[], tearDownFaults=[])
+                    w["layers"][k].pop("falsy", None)
+                w["layers"][a]["bases"] = []
+                w["layers"][b]["bases"] = []
+                w["layers"][x]["bases"] = rng.choice([[a, b], [b, a]])
+                w["layers"][y]["bases"] = [rng.choice([a, b])]
+                o["processes"] = 1
+                o["stopOnError"] = False
+                o.pop("layer", None)
         o["verbose"] = rng.choice([0, 1, 2])
-        if rng.random() < 0.2:
+        if rng.random() < 0.2 and i % 10 != 2:
             names = [worlds.layer_name(w, i) for i in range(len(w["layers"]))]
             o["layer"] = [rng.choice(names).split(".")[-1]]
         cases.append(cw.Case(w, o))
